@@ -314,7 +314,7 @@ class Check(Property):
         s = c["s"]
         if not getattr(self, "_reparse_done", False):
             self._reparse_done = True
-            rv = self.reparse_probe() + self.optimized_mode_probe()
+            rv = self.reparse_probe() + self.optimized_mode_probe() + self.uncertainty_probe()
             if rv:
                 return rv
         if c["kind"] == "malformed":
@@ -414,6 +414,29 @@ class Check(Property):
             if res.startswith("value"):
                 v.append(f"C07 under `python -O` the malformed expression {s_!r} yields a {res}")
         return v
+
+    def uncertainty_probe(self):
+        """+/- uncertainties inside expressions: value(uncertainty) with and without a decimal point or an exponent, (n +/- s),
+        the unicode sign - each against the nominal value and standard deviation the notation denotes, alone and in a product"""
+        v = []
+        r = regs.ureg("float")
+        cases = [("100(5)", 100, 5), ("7(2)", 7, 2), ("1200(50)", 1200, 50), ("15e2(3)", 1500, 300), ("100(5)e3", 100000, 5000),
+                 ("8.0(4)", 8.0, 0.4), ("12.3(45)", 12.3, 4.5), ("1.50e3(2)", 1500, 20), ("6.62607015(81)e-34", 6.62607015e-34, 8.1e-41),
+                 ("(3 +/- 1)", 3, 1), ("(2.50 ± 0.25)", 2.5, 0.25), ("(4 +/- 2)e2", 400, 200), ("0.5(1)", 0.5, 0.1)]
+        for text, n, sd in cases:
+            for expr_, scale, unit in ((text + " m", 1, "meter"), ("2 * " + text + " m", 2, "meter"), (text + " m / s", 1, "meter / second")):
+                try:
+                    q = r(expr_)
+                    m = q.magnitude
+                    ok = (abs(m.nominal_value - n * scale) <= 1e-12 * abs(n * scale) and abs(m.std_dev - sd * scale) <= 1e-9 * abs(sd * scale)
+                          and str(q.units) == unit)
+                    got = f"{m.nominal_value} +/- {m.std_dev} {q.units}"
+                except Exception as exc:  # noqa: BLE001
+                    ok, got = False, type(exc).__name__
+                if not ok:
+                    v.append(f"C07 {expr_!r} evaluates to {got}; the notation denotes {n * scale} +/- {sd * scale} {unit}")
+                    break
+        return v[:8]
 
     def reparse_probe(self):
         """parsing a string gives the quantity the string denotes - every time: what is done to an earlier result (in-place
